@@ -200,6 +200,23 @@ def parse_tla_value(s: str):
                     pos += 1
                     return out
                 raise ValueError(f"bad record at {pos}")
+        if s[pos] == "(":                      # function literal  (k :> v @@ k2 :> v2)
+            pos += 1
+            out = {}
+            while True:
+                k = val()
+                ws()
+                assert s.startswith(":>", pos), s[pos:pos + 20]
+                pos += 2
+                out[k if isinstance(k, str) else json.dumps(k)] = val()
+                ws()
+                if s.startswith("@@", pos):
+                    pos += 2
+                    continue
+                if s[pos] == ")":
+                    pos += 1
+                    return out
+                raise ValueError(f"bad function at {pos}")
         if s[pos] == '"':
             j = pos + 1
             buf = []
@@ -220,6 +237,10 @@ def parse_tla_value(s: str):
         if s.startswith("FALSE", pos):
             pos += 5
             return False
+        m = re.match(r"[A-Za-z_][A-Za-z_0-9]*", s[pos:])
+        if m:                                  # a model value (v1, p1, ...)
+            pos += len(m.group(0))
+            return m.group(0)
         raise ValueError(f"cannot parse at {pos}: {s[pos:pos+40]!r}")
 
     v = val()
@@ -360,6 +381,10 @@ def model_check(spec: str, cfg_text: str, workdir: Path, workers: int = NCPU, ti
     if m:
         res.states, res.distinct = int(m.group(1)), int(m.group(2))
     res.ok = "No error has been found" in r.stdout or (simulate is not None and "Error" not in r.stdout)
+    if simulate is not None:
+        ms = re.search(r"The number of states generated: (\d+)", r.stdout)
+        if ms:
+            res.states = res.distinct = int(ms.group(1))
     mv = re.search(r"Error: Invariant (\S+) is violated", r.stdout)
     if mv:
         res.violated = mv.group(1)
@@ -465,3 +490,35 @@ def parse_dump_states(path: Path):
     if cur:
         states.append(cur)
     return states
+
+
+def parse_simulate_dir(d: Path, var_names=("heap", "lru", "hostc", "last", "steps")):
+    """Behaviours written by `tlc -simulate file=<d>/tr,...`: one TLA+ module per behaviour with STATE_n definitions.
+    Returns a list of behaviours, each a list of states (dict var -> parsed value)."""
+    out = []
+    for f in sorted(Path(d).glob("tr_*")):
+        states, cur, var, buf = [], None, None, []
+
+        def flush():
+            nonlocal var, buf
+            if cur is not None and var is not None:
+                cur[var] = parse_tla_value("\n".join(buf))
+            var, buf = None, []
+        for ln in f.read_text().splitlines():
+            if ln.startswith("STATE_"):
+                flush()
+                if cur is not None:
+                    states.append(cur)
+                cur = {}
+                continue
+            m = re.match(r"^/\\ ([A-Za-z_][A-Za-z_0-9]*) = (.*)$", ln)
+            if m and cur is not None:
+                flush()
+                var, buf = m.group(1), [m.group(2)]
+            elif var is not None and ln.strip() and not ln.startswith(("\\*", "====", "----")):
+                buf.append(ln)
+        flush()
+        if cur:
+            states.append(cur)
+        out.append(states)
+    return out
